@@ -64,34 +64,44 @@ FIELD = {1: "outcome class (ok/error/panic/blocked)", 2: "numeric result", 3: "l
          7: "per-class free counts", 8: "the model's lease is no longer valid", 9: "length of the run"}
 
 
-def eval_cases(prop, cases, tag):
+def _eval_chunk(prop, chunk, k, tag):
+    txt = ["From Coq Require Import List ZArith.",
+           "From Shm Require Import Gen.Consts Model.LinkedBuffer Corr.LinkedBufferCorr.",
+           "Import ListNotations.", "Close Scope Z_scope.", "Open Scope nat_scope.",
+           "Definition cases : list lcase := ["]
+    txt.append(";\n".join(case_to_coq(c) for c in chunk))
+    txt.append("].")
+    txt.append("Definition M := Eval vm_compute in mismatches cases.")
+    txt.append("Print M.")
+    rc, out, _ = core.coq_eval("cases_%s_%s_%d_%d" % (prop, tag, os.getpid(), k), "\n".join(txt))
+    if rc != 0:
+        raise RuntimeError("coqc on the generated cases failed: " + out[-1500:])
+    m = re.search(r"M\s*=\s*(.*?)\s*:\s*list", out, re.S)
+    if not m:
+        raise RuntimeError("cannot parse the mismatch list: " + out[-500:])
+    body = m.group(1).strip()
     bad = []
-    SH = 250
-    for k in range(0, len(cases), SH):
-        chunk = cases[k:k + SH]
-        txt = ["From Coq Require Import List ZArith.",
-               "From Shm Require Import Gen.Consts Model.LinkedBuffer Corr.LinkedBufferCorr.",
-               "Import ListNotations.", "Close Scope Z_scope.", "Open Scope nat_scope.",
-               "Definition cases : list lcase := ["]
-        txt.append(";\n".join(case_to_coq(c) for c in chunk))
-        txt.append("].")
-        txt.append("Definition M := Eval vm_compute in mismatches cases.")
-        txt.append("Print M.")
-        rc, out, _ = core.coq_eval("cases_%s_%s_%d_%d" % (prop, tag, os.getpid(), k), "\n".join(txt))
-        if rc != 0:
-            raise RuntimeError("coqc on the generated cases failed: " + out[-1500:])
-        m = re.search(r"M\s*=\s*(.*?)\s*:\s*list", out, re.S)
-        if not m:
-            raise RuntimeError("cannot parse the mismatch list: " + out[-500:])
-        body = m.group(1).strip()
-        if body != "[]":
-            found = False
-            for mm in re.finditer(r"\((\d+),\s*(\d+),\s*\(?(-?\d+)\)?(?:%Z)?\)", body):
-                bad.append((k + int(mm.group(1)), int(mm.group(2)), int(mm.group(3))))
-                found = True
-            if not found:
-                bad.append((k, -1, -1))
+    if body != "[]":
+        for mm in re.finditer(r"\((\d+),\s*(\d+),\s*\(?(-?\d+)\)?(?:%Z)?\)", body):
+            bad.append((k + int(mm.group(1)), int(mm.group(2)), int(mm.group(3))))
+        if not bad:
+            bad.append((k, -1, -1))
     return bad
+
+
+def eval_cases(prop, cases, tag):
+    """the model on the same histories (vm_compute); chunks are evaluated by parallel coqc processes"""
+    from concurrent.futures import ThreadPoolExecutor
+    workers = max(1, min(10, (os.cpu_count() or 2) * 2 // 3))
+    nch = max(1, min(workers, (len(cases) + 19) // 20))
+    # strided chunks: the expensive histories (heap slices of 4096 bytes, level (ii)) are spread evenly
+    idxs = [list(range(j, len(cases), nch)) for j in range(nch)]
+    bad = []
+    with ThreadPoolExecutor(max_workers=workers) as ex:
+        for j, r in enumerate(ex.map(lambda ix: _eval_chunk(prop, [cases[i] for i in ix], 0, "%s_%d" % (tag, ix[0])), idxs)):
+            for (loc, pos, kind) in r:
+                bad.append((idxs[j][loc] if 0 <= loc < len(idxs[j]) else -1, pos, kind))
+    return sorted(bad)
 
 
 def run_harness(prop, test, n, seed, tag, files=None, n2=None):
